@@ -154,6 +154,36 @@ func (g *gen) rawType(tupleOK bool) *typeDesc {
 	return &typeDesc{kind: 'n', id: rawIDs[g.r.Intn(len(rawIDs))]}
 }
 
+// noGoType: a type without a Go type: map<k, v> with k a blob / collection / tuple / UDT (not comparable
+// in Go), an unknown option id, an unmapped custom class, or one of these inside a list / set / map value
+func (g *gen) noGoType() *typeDesc {
+	raw := func() *typeDesc { return &typeDesc{kind: 'n', id: nativeIDs[g.r.Intn(len(nativeIDs))]} }
+	var t *typeDesc
+	switch g.r.Intn(8) {
+	case 0, 1:
+		t = &typeDesc{kind: 'm', sub: []*typeDesc{{kind: 'n', id: 3}, raw()}}
+	case 2:
+		t = &typeDesc{kind: 'm', sub: []*typeDesc{{kind: []byte("ls")[g.r.Intn(2)], sub: []*typeDesc{raw()}}, raw()}}
+	case 3:
+		t = &typeDesc{kind: 'm', sub: []*typeDesc{{kind: 't', sub: []*typeDesc{raw(), raw()}}, raw()}}
+	case 4:
+		t = &typeDesc{kind: 'm', sub: []*typeDesc{{kind: 'u', ks: g.name(), nm: g.name()}, raw()}}
+	case 5:
+		t = &typeDesc{kind: 'm', sub: []*typeDesc{{kind: 'c', cls: []byte(marshalPrefix + "BytesType")}, raw()}}
+	case 6:
+		t = &typeDesc{kind: 'n', id: oddIDs[g.r.Intn(len(oddIDs))]}
+	default:
+		t = &typeDesc{kind: 'c', cls: []byte([]string{"com.example.MyType", "ListType", marshalPrefix + "MapType", "TupleType"}[g.r.Intn(4)])}
+	}
+	switch g.r.Intn(6) {
+	case 0:
+		t = &typeDesc{kind: 'l', sub: []*typeDesc{t}}
+	case 1:
+		t = &typeDesc{kind: 'm', sub: []*typeDesc{raw(), t}}
+	}
+	return t
+}
+
 func (g *gen) depth() int {
 	switch g.r.Intn(10) {
 	case 0:
